@@ -88,7 +88,16 @@ Criteria == <<
   [txt |-> "$this = 2", e |-> Bin("=", This, Lit1(I(2)))],
   [txt |-> "$this", e |-> This],
   [txt |-> "url = 'http://example.org/ext/a'", e |-> Bin("=", Fld(This, "url"), Lit1(Str(UrlA)))],
-  [txt |-> "url = 'http://hl7.org/fhir/StructureDefinition/patient-birthTime'", e |-> Bin("=", Fld(This, "url"), Lit1(Str(UrlBirth)))] >>
+  [txt |-> "url = 'http://hl7.org/fhir/StructureDefinition/patient-birthTime'", e |-> Bin("=", Fld(This, "url"), Lit1(Str(UrlBirth)))],
+  \* an iteration NESTED in the criterion, and the outer item read again after it: the inner items must not take its place
+  [txt |-> "given.exists($this = 'John') and use = 'official'",
+     e |-> Bin("and", Call(Fld(This, "given"), "exists", <<Bin("=", This, Lit1(Str(John)))>>), Bin("=", Fld(This, "use"), Lit1(Str(Official))))],
+  [txt |-> "given.where($this = 'John').exists() and family.exists()",
+     e |-> Bin("and", Call(Call(Fld(This, "given"), "where", <<Bin("=", This, Lit1(Str(John)))>>), "exists", <<>>), Call(Fld(This, "family"), "exists", <<>>))],
+  [txt |-> "given.all($this != 'Smith') and use.exists()",
+     e |-> Bin("and", Call(Fld(This, "given"), "all", <<Bin("!=", This, Lit1(Str(Smith)))>>), Call(Fld(This, "use"), "exists", <<>>))],
+  [txt |-> "given.select($this).count() > 1 and family = 'Smith'",
+     e |-> Bin("and", Bin(">", Call(Call(Fld(This, "given"), "select", <<This>>), "count", <<>>), Lit1(I(1))), Bin("=", Fld(This, "family"), Lit1(Str(Smith))))] >>
 
 Projections == <<
   [txt |-> "given", e |-> Fld(This, "given")],
@@ -99,7 +108,9 @@ Projections == <<
   [txt |-> "value", e |-> Fld(This, "value")],
   [txt |-> "{}", e |-> LitE],
   [txt |-> "extension", e |-> Fld(This, "extension")],
-  [txt |-> "display", e |-> Fld(This, "display")] >>
+  [txt |-> "display", e |-> Fld(This, "display")],
+  [txt |-> "iif(given.exists($this = 'John'), family, use)",
+     e |-> Call(This, "iif", <<Call(Fld(This, "given"), "exists", <<Bin("=", This, Lit1(Str(John)))>>), Fld(This, "family"), Fld(This, "use")>>)] >>
 
 (* overlap collections for the set functions, described by tokens:          *)
 (*   [src |-> "focus", j]   the j-th item of c (1-based; skipped if absent)   *)
